@@ -75,6 +75,8 @@ Definition obj_eqb (cmp : list Z * list (mat Z) -> list Z * list (mat Z) -> bool
   nat_list_eqb (cpo_shape o) (fst e) && cmp (cpo_w o, cpo_fs o) (snd e).
 
 (* ---- round 5: validating constructors (Model/TransformsApi.v) and the heap model of the copy flag (Model/TransformsHeap.v) *)
+Fixpoint list_eqb2 {A B} (eqb : A -> B -> bool) (a : list A) (b : list B) : bool :=
+  match a, b with [], [] => true | x :: a', y :: b' => eqb x y && list_eqb2 eqb a' b' | _, _ => false end.
 Definition qclose5 (x y : Q) : bool := Qle_bool (Qabs (x - y)) (Qmake 1 100000).      (* the code's orthonormality test: max |P^T P - I| <= 1e-5 *)
 Definition nat_lists_eqb : list (list nat) -> list (list nat) -> bool := list_eqb nat_list_eqb.
 Definition mk_pf2 (is_class : bool) (w : option (list Z)) (fs Ps : list (mat Z)) : res (pf2_operand (F:=Z)) :=
@@ -139,6 +141,8 @@ Inductive body :=
 | QTkNormApi (tape : list (list Q)) (core : tensor Q) (fs : list (mat Q)) (expected : res (list nat * list nat))
 | ZHeapDot (inplace : bool) (arrs : list (mat Z)) (ls : list nat) (w : option nat) (is_class copy : bool) (x : operand (F:=Z)) (mode : nat) (keep_dim : bool)
            (expected : res (list nat * (list Z * list (mat Z)))) (after : list (mat Z)) (shared : list bool) (list_same : bool)
+| ZHeapSeq (arrs : list (mat Z)) (ls : list nat) (w : option nat) (is_class : bool) (ops : list (nat * operand (F:=Z) * nat * bool))
+           (expected : res (list (list nat * (list Z * list (mat Z))))) (after : list (mat Z)) (shared : list bool) (list_same : bool)
 | QAlign (norm_t : bool) (rw : list Q) (rfs : list (mat Q)) (tw : list Q) (tfs : list (mat Q)) (tA tB : list (list Q)) (perm : list nat).
 
 Definition agree_body (b : body) : bool :=
@@ -207,6 +211,21 @@ Definition agree_body (b : body) : bool :=
       | Ok (h', o), Ok e' =>
           obj_eqb zcp_dense_eqb (read_obj h' o) e' &&
           Bool.eqb (model_alias cp arrs ls h' o) (alias_okb cp arrs after shared same)
+      | Err, Err => true
+      | _, _ => false
+      end
+  | ZHeapSeq arrs ls w cl ops e after shared same =>
+      (* a history of copy=True calls, each on any tensor seen so far: every result's value and shape attribute; the caller's
+         arrays and list untouched, no memory shared with any result *)
+      let (h0, r) := heap0 arrs ls w cl in
+      match run_ops Zops h0 [r] ops, e with
+      | Ok (h', refs'), Ok es =>
+          let objs := flat_map (fun rf => match rf with RObject o => [o] | RTuple _ _ => [] end) (tl refs') in
+          list_eqb2 (fun o e' => obj_eqb zcp_dense_eqb (read_obj h' o) e') objs es &&
+          Bool.eqb (alias_okb true arrs (firstn (length arrs) (h_arr h'))
+                              (map (fun i => existsb (fun o => existsb (Nat.eqb i) (owned h' o)) objs) (seq 0 (length arrs)))
+                              (nat_list_eqb (lst h' 0) ls))
+                   (alias_okb true arrs after shared same)
       | Err, Err => true
       | _, _ => false
       end
